@@ -156,6 +156,22 @@ sb_hex(struct sbuf *b, const char *s)
     for (; *s; ++s) sb_printf(b, "%02x", (unsigned char)*s);
 }
 
+static void
+view_metas(struct sbuf *b, const struct lyd_node *n)
+{
+    const struct lyd_meta *m;
+
+    for (m = n->meta; m; m = m->next) {
+        if (!strcmp(m->annotation->module->name, "yang") && !strcmp(m->name, "lyds_tree")) {
+            continue;       /* internal, never printed */
+        }
+        sb_printf(b, " ");
+        sb_hex(b, m->annotation->module->ns);
+        sb_printf(b, ",%s,%s,", m->annotation->module->prefix, m->name);
+        sb_hex(b, lyd_get_meta_value(m));
+    }
+}
+
 /* returns 1 when something was written for the sibling list; an np-container without printed content is not printed
  * under with-defaults report-all (no LYD_PRINT_KEEPEMPTYCONT) */
 static int
@@ -175,8 +191,9 @@ view_r(struct sbuf *b, const struct lyd_node *n, int depth)
             if (!inner) { free(sub.s); continue; }
             sb_printf(b, "%d %s ", depth, n->schema->module->name);
             sb_hex(b, n->schema->module->ns);
-            sb_printf(b, " %s cont 0 %d -\n", n->schema->name, (n->flags & LYD_DEFAULT) ? 1 : 0);
-            sb_printf(b, "%s", sub.s ? sub.s : "");
+            sb_printf(b, " %s cont 0 %d -", n->schema->name, (n->flags & LYD_DEFAULT) ? 1 : 0);
+            view_metas(b, n);
+            sb_printf(b, "\n%s", sub.s ? sub.s : "");
             free(sub.s);
             any = 1;
             continue;
@@ -192,6 +209,7 @@ view_r(struct sbuf *b, const struct lyd_node *n, int depth)
         } else {
             sb_printf(b, "0 %d -", (n->flags & LYD_DEFAULT) ? 1 : 0);
         }
+        view_metas(b, n);
         sb_printf(b, "\n");
         if (n->schema->nodetype & LYD_NODE_INNER) {
             view_r(b, lyd_child(n), depth + 1);
